@@ -1,6 +1,9 @@
 package props
 
-import "astverif/demuxrules"
+import (
+	"astverif/demuxrules"
+	"astverif/extrarules"
+)
 
 func init() { register("C19", "other", c19) }
 
@@ -18,5 +21,6 @@ func c19(c *Ctx) {
 	r.Trusted = []string{"go/types + go/ssa (x/tools v0.29.0): SSA construction, dominator tree, def-use, static callees", "errors.Is(err, s) holds for err == s and for errors wrapping s",
 		"callbacks do not retain or mutate the packets they are shown (C16 covers the library side)"}
 	demuxrules.New(c.P, r).C19()
+	extrarules.SkipperAlwaysInstalled(c.P, r)
 	r.Floor("C19", "obligations", len(r.Obls), 15)
 }
